@@ -10,7 +10,7 @@ from __future__ import annotations
 
 import ast
 
-from ..core import UNKNOWN, AnalysisError, ClassInfo, FuncInfo, body_no_doc, call_name, get_arg, is_self_attr, norm, walk_no_nested
+from ..core import UNKNOWN, AnalysisError, ancestors, ClassInfo, FuncInfo, body_no_doc, call_name, get_arg, is_self_attr, norm, walk_no_nested
 from ..paths import canon, cfg_of, node_of, structural_guards
 from ..strflow import parts
 
@@ -791,6 +791,286 @@ def r19h(ctx):
                            f"{'columns' if rows_used else 'rows'} here and as {'rows' if rows_used else 'columns'} by the sibling methods, so the same tuple addresses different cells")
 
 
+# ---- R19j: what each coordinate form means, computed by evaluating the translators on symbolic references ---------------------------------
+
+_TOP = ("top",)
+_NONE = ("sym", frozenset({"None"}))
+
+
+def _cj_join(a, b):
+    if a == b:
+        return a
+    if a is None:
+        return b
+    if b is None:
+        return a
+    if a[0] == "sym" and b[0] == "sym":
+        return ("sym", a[1] | b[1])
+    if a[0] == "tuple" and b[0] == "tuple" and len(a[1]) == len(b[1]):
+        return ("tuple", tuple(_cj_join(x, y) for x, y in zip(a[1], b[1])))
+    return _TOP
+
+
+def _cj_show(v) -> str:
+    if v is None:
+        return "no return"
+    if v[0] == "sym":
+        return "|".join(sorted(v[1])) or "·"
+    if v[0] == "tuple":
+        return "(" + ",".join(_cj_show(x) for x in v[1]) + ")"
+    if v[0] == "str":
+        return f"str[{v[1]}]"
+    return "?"
+
+
+class _CoordSem:
+    """Evaluates the coordinate translators on a symbolic argument: a string reference that parses to k items P0..Pk-1, or a tuple of k numbers
+    P0..Pk-1.  Values are sets of origins; tests on the *kind* of the argument (isinstance str, len == k, isiterable) are decided, every other
+    test (signs, None) is explored both ways and joined; increment()/min()/max() keep the origin of what they adjust."""
+
+    def __init__(self, repo):
+        self.repo = repo
+
+    def call(self, cls, fname, arg, depth=0):
+        f = cls.lookup(fname) if cls is not None else None
+        if f is None or depth > 5:
+            return _TOP
+        ps = [a.arg for a in f.node.args.args if a.arg != "self"]
+        env = {ps[0]: arg} if ps else {}
+        rets = []
+        self.block(f.node.body, env, rets, cls, depth)
+        out = None
+        for r in rets:
+            out = _cj_join(out, r)
+        return out
+
+    def test(self, t, env):
+        if isinstance(t, ast.UnaryOp) and isinstance(t.op, ast.Not):
+            r = self.test(t.operand, env)
+            return None if r is None else not r
+        if isinstance(t, ast.Call) and call_name(t) == "isinstance" and len(t.args) == 2 and isinstance(t.args[0], ast.Name):
+            v = env.get(t.args[0].id)
+            names = {x.id for x in ast.walk(t.args[1]) if isinstance(x, ast.Name)}
+            if v is not None and v[0] == "str":
+                return "str" in names
+            if v is not None and v[0] == "tuple":
+                return bool(names & {"tuple", "list"})
+            return None
+        if isinstance(t, ast.Call) and call_name(t) == "isiterable" and t.args and isinstance(t.args[0], ast.Name):
+            v = env.get(t.args[0].id)
+            if v is not None and v[0] in ("str", "tuple"):
+                return v[0] == "tuple"
+        if isinstance(t, ast.Compare) and len(t.ops) == 1:
+            l, r = t.left, t.comparators[0]
+            if isinstance(l, ast.Constant):
+                l, r = r, l
+            if isinstance(l, ast.Call) and call_name(l) == "len" and l.args and isinstance(r, ast.Constant) and isinstance(r.value, int):
+                v = self.expr(l.args[0], env, None, 9)
+                if v[0] == "tuple":
+                    n = len(v[1])
+                    op = t.ops[0]
+                    return {ast.Eq: n == r.value, ast.NotEq: n != r.value, ast.Lt: n < r.value, ast.LtE: n <= r.value, ast.Gt: n > r.value, ast.GtE: n >= r.value}.get(type(op))
+        return None
+
+    def expr(self, e, env, cls, depth):
+        if isinstance(e, ast.Name):
+            return env.get(e.id, ("sym", frozenset()))
+        if isinstance(e, ast.Constant):
+            return _NONE if e.value is None else ("sym", frozenset())
+        if isinstance(e, ast.Tuple):
+            return ("tuple", tuple(self.expr(x, env, cls, depth) for x in e.elts))
+        if isinstance(e, ast.Subscript):
+            v = self.expr(e.value, env, cls, depth)
+            if v[0] == "tuple" and isinstance(e.slice, ast.Constant) and isinstance(e.slice.value, int) and -len(v[1]) <= e.slice.value < len(v[1]):
+                return v[1][e.slice.value]
+            if v[0] == "tuple" and isinstance(e.slice, ast.Slice):
+                lo = e.slice.lower.value if isinstance(e.slice.lower, ast.Constant) else None
+                hi = e.slice.upper.value if isinstance(e.slice.upper, ast.Constant) else None
+                if (e.slice.lower is None or isinstance(lo, int)) and (e.slice.upper is None or isinstance(hi, int)) and e.slice.step is None:
+                    return ("tuple", v[1][lo:hi])
+            return _TOP
+        if isinstance(e, ast.Attribute):
+            return ("sym", frozenset())
+        if isinstance(e, ast.BinOp):
+            a, b = self.expr(e.left, env, cls, depth), self.expr(e.right, env, cls, depth)
+            if a[0] == "tuple" and b[0] == "tuple" and isinstance(e.op, ast.Add):
+                return ("tuple", a[1] + b[1])
+            return _cj_join(a, b) if a[0] == "sym" and b[0] == "sym" else _TOP
+        if isinstance(e, ast.IfExp):
+            r = self.test(e.test, env)
+            if r is True:
+                return self.expr(e.body, env, cls, depth)
+            if r is False:
+                return self.expr(e.orelse, env, cls, depth)
+            return _cj_join(self.expr(e.body, env, cls, depth), self.expr(e.orelse, env, cls, depth))
+        if isinstance(e, ast.Call):
+            nm = call_name(e)
+            args = [self.expr(a, env, cls, depth) for a in e.args]
+            if nm == "convert_coordinates" and args:
+                a = args[0]
+                if a[0] == "str":
+                    return ("tuple", tuple(("sym", frozenset({f"P{i}"})) for i in range(a[1])))
+                return a if a[0] == "tuple" else _TOP
+            if nm in ("tuple", "list", "int") and len(args) == 1:
+                return args[0]
+            if nm == "increment" and args:
+                return args[0]
+            if nm in ("min", "max") and args:
+                out = None
+                for a in args:
+                    out = _cj_join(out, a)
+                return out
+            if nm.startswith("_translate") and is_self_attr(e.func) and args and cls is not None:
+                return self.call(cls, nm, args[0], depth + 1)
+            return _TOP
+        return _TOP
+
+    def assign(self, tgt, val, env):
+        if isinstance(tgt, ast.Name):
+            env[tgt.id] = val
+        elif isinstance(tgt, (ast.Tuple, ast.List)):
+            if val[0] == "tuple" and len(val[1]) == len(tgt.elts):
+                for t_, v_ in zip(tgt.elts, val[1]):
+                    self.assign(t_, v_, env)
+            else:
+                for t_ in tgt.elts:
+                    self.assign(t_, _TOP, env)
+
+    def block(self, stmts, env, rets, cls, depth):
+        """runs the statements; returns the environment at the end, or None when every path has left the function"""
+        for st in stmts:
+            if env is None:
+                return None
+            if isinstance(st, ast.Return):
+                rets.append(self.expr(st.value, env, cls, depth) if st.value is not None else _NONE)
+                return None
+            if isinstance(st, ast.Raise):
+                return None
+            if isinstance(st, ast.Assign):
+                v = self.expr(st.value, env, cls, depth)
+                for t_ in st.targets:
+                    self.assign(t_, v, env)
+            elif isinstance(st, ast.AnnAssign) and st.value is not None:
+                self.assign(st.target, self.expr(st.value, env, cls, depth), env)
+            elif isinstance(st, ast.If):
+                r = self.test(st.test, env)
+                if r is True:
+                    env = self.block(st.body, env, rets, cls, depth)
+                elif r is False:
+                    env = self.block(st.orelse, env, rets, cls, depth)
+                else:
+                    e1 = self.block(st.body, dict(env), rets, cls, depth)
+                    e2 = self.block(st.orelse, dict(env), rets, cls, depth)
+                    if e1 is None:
+                        env = e2
+                    elif e2 is None:
+                        env = e1
+                    else:
+                        env = {k: _cj_join(e1.get(k), e2.get(k)) for k in set(e1) | set(e2)}
+            elif isinstance(st, (ast.For, ast.While, ast.Try, ast.With)):
+                for x in ast.walk(st):
+                    if isinstance(x, ast.Name) and isinstance(x.ctx, ast.Store):
+                        env[x.id] = _TOP
+                    if isinstance(x, ast.Return):
+                        rets.append(_TOP)
+        return env
+
+
+# what each form of reference means (the API documentation of Table and Row; the string forms are what the property's first sentence is about:
+# 'C4' names one cell, 'C' one column, whatever the method)
+_R19J_EXPECTED = {
+    ("Table", "_translate_table_coordinates"): {"str2": "(P0,P1,P0,P1)", "str4": "(P0,P1,P2,P3)", "tuple1": "(None,P0,None,P0)", "tuple2": "(None,P0,None,P1)", "tuple4": "(P0,P1,P2,P3)"},
+    ("Table", "_translate_column_coordinates"): {"str2": "(P0,P1,P0,P1)", "str4": "(P0,P1,P2,P3)", "tuple1": "(P0,None,P0,None)", "tuple2": "(P0,None,P1,None)", "tuple4": "(P0,P1,P2,P3)"},
+    ("Table", "_translate_cell_coordinates"): {"str2": "(P0,P1)", "str4": "(P0,P1)", "tuple2": "(P0,P1)", "tuple4": "(P0,P1)"},
+    ("Row", "_translate_row_coordinates"): {"str2": "(P0,P0)", "str4": "(P0,P2)", "tuple2": "(P0,P1)", "tuple4": "(P0,P2)"},
+}
+_R19J_WORDS = {"str2": "a string naming one cell or one column ('C4', 'C')", "str4": "a string naming an area ('A1:B3', 'A:C')", "tuple1": "a 1-tuple", "tuple2": "a 2-tuple",
+               "tuple4": "a 4-tuple"}
+
+
+def r19j(ctx):
+    """A reference means the same cells whichever translator reads it.
+
+    "A spreadsheet reference such as 'C4' or 'A1:B3' and the equivalent tuple of zero-based numbers address the same cells in every method that
+    takes coordinates."  Every coordinate-taking method of Table and Row resolves its argument through one of four translators.  What a
+    translator makes of each *form* of argument does not depend on the numbers: it is a fixed rearrangement of the parsed items, so it can be
+    computed by evaluating the translator on a symbolic reference (items P0, P1, …) — tests on the kind of argument are decided, sign and None
+    tests are explored both ways.  Rule: for every translator and every form, the computed rearrangement equals the documented meaning: a string
+    with one reference is one cell / one column (P0,P1,P0,P1), a string with two is the area between them, a 2-tuple given to a table is a row
+    (or column) range, a 2-tuple given to a row is a column range.
+    """
+    repo = ctx.repo
+    ctx.rule("R19j", "each coordinate translator rearranges the parsed items of every argument form as documented (symbolic evaluation)", floor=18)
+    sem = _CoordSem(repo)
+    for (cn, fn), exp in _R19J_EXPECTED.items():
+        c = repo.cls(cn)
+        f = c.lookup(fn)
+        if f is None:
+            raise AnalysisError(f"anchor function vanished: {cn}.{fn}")
+        for kind, want in exp.items():
+            k = int(kind[-1])
+            arg = ("str", k) if kind.startswith("str") else ("tuple", tuple(("sym", frozenset({f"P{i}"})) for i in range(k)))
+            got = _cj_show(sem.call(c, fn, arg))
+            if "?" in got:
+                raise AnalysisError(f"R19j: cannot evaluate {cn}.{fn} on {kind}: {got}")
+            ok = got == want
+            ctx.instance("R19j", f"{f.file}:{f.ident}", f"{kind} -> {got}", ok=ok, nontrivial=True, line=f.node.lineno)
+            if not ok:
+                ctx.report("R19j", f, f.node, f"{kind} {got}",
+                           f"{f.ident} reads {_R19J_WORDS[kind]} as {got} instead of {want}: the same reference addresses different cells here than in the other "
+                           f"coordinate-taking methods (a single reference 'C4' / 'C' is one cell / one column, not the range from P0 to P1)")
+
+
+def r19k(ctx):
+    """A written address is made of resolved numbers.
+
+    "Negative numbers count from the current end" and "written addresses parse back": a Table method that writes a cell address (column letters
+    from digit_to_alpha, row number + 1) receives its coordinates in any accepted form, negative numbers included.  Only the table knows its
+    extent, so the numbers that go into the address must have been through one of the table's translators; a number taken straight from the
+    parser or from the argument is still relative, and digit_to_alpha / `y + 1` of a negative number is not an address of the addressed cell.
+    Rule: in every method of Table, each local that feeds digit_to_alpha (and the row number written next to it) is defined, on every
+    definition, from the result of a `_translate_*` / translate_from_any call.
+    """
+    repo = ctx.repo
+    ctx.rule("R19k", "Table methods build written addresses from translated coordinates only", floor=1)
+    c = repo.cls("Table")
+    n_sites = 0
+    for name, fs in sorted(c.methods.items()):
+        for f in fs:
+            if f.cls is not c:
+                continue
+            calls = [n for n in walk_no_nested(f.node) if isinstance(n, ast.Call) and call_name(n) == "digit_to_alpha" and n.args]
+            for call in calls:
+                n_sites += 1
+                feed = {x.id for x in ast.walk(call.args[0]) if isinstance(x, ast.Name)}
+                js = next((a for a in ancestors(call) if isinstance(a, ast.JoinedStr)), None)
+                if js is not None:
+                    for v in js.values:
+                        if isinstance(v, ast.FormattedValue) and isinstance(v.value, ast.BinOp):
+                            feed |= {x.id for x in ast.walk(v.value) if isinstance(x, ast.Name)}
+                feed.discard("self")
+                bad = []
+                for var in sorted(feed):
+                    defs = []
+                    for a in walk_no_nested(f.node):
+                        if isinstance(a, ast.Assign):
+                            for t in a.targets:
+                                if any(isinstance(x, ast.Name) and x.id == var and isinstance(x.ctx, ast.Store) for x in ast.walk(t)):
+                                    defs.append(a)
+                    if not defs:
+                        bad.append((var, None))
+                    for d in defs:
+                        if not any(isinstance(x, ast.Call) and (call_name(x).startswith("_translate") or call_name(x) == "translate_from_any") for x in ast.walk(d.value)):
+                            bad.append((var, d))
+                ctx.instance("R19k", f"{f.file}:{f.ident}", f"address built from {sorted(feed)}: all translated", ok=not bad, nontrivial=True, line=call.lineno)
+                for var, d in bad[:1]:
+                    ctx.report("R19k", f, d or call, f"{name}: `{var}` untranslated",
+                               f"{f.ident} writes a cell address from `{var}`, which is " + (f"defined by `{norm(d, 50)}`" if d is not None else "the argument as given") +
+                               " and never resolved against the table's extent: for a negative coordinate the written address is not the address of the cell that was addressed")
+    if n_sites < 1:
+        raise AnalysisError("R19k: no address-writing site found in Table")
+
+
 def run(ctx):
     r19a(ctx)
     r19b(ctx)
@@ -801,6 +1081,8 @@ def run(ctx):
     r19g(ctx)
     r19h(ctx)
     r19i(ctx)
+    r19j(ctx)
+    r19k(ctx)
     # "a range bounds the result on both sides": the expanding traversals decide which columns/cells a range returns (rule shared with C08)
     from .c08 import r08c
     r08c(ctx)
@@ -811,6 +1093,12 @@ from ..selftest import Seed, unparse_seed  # noqa: E402
 _T = "src/odfdo/table.py"
 _R = "src/odfdo/row.py"
 SEEDS = [
+    Seed("set_cell_image takes the address numbers straight from the parser", "fault", _T,
+         "        x, y = self._translate_cell_coordinates(coord)\n        if x is None:\n            raise ValueError\n        if y is None:\n            raise ValueError\n        cell = self.get_cell((x, y))\n        image_frame",
+         "        x, y = convert_coordinates(coord)[:2]\n        if x is None:\n            raise ValueError\n        if y is None:\n            raise ValueError\n        cell = self.get_cell(coord)\n        image_frame", "R19k"),
+    Seed("the column translator hands a parsed string to the tuple translator", "fault", _T,
+         "        coord = convert_coordinates(coord_str)\n        if len(coord) == 2:\n            x, y = coord\n            if x and x < 0:\n                x = increment(x, width)\n            if y and y < 0:\n                y = increment(y, height)\n            # extent to an area :\n            return (x, y, x, y)\n        x, y, z, t = coord\n        if x and x < 0:\n            x = increment(x, width)\n        if y and y < 0:\n            y = increment(y, height)\n        if z and z < 0:\n            z = increment(z, width)\n        if t and t < 0:\n            t = increment(t, height)\n        return (x, y, z, t)\n\n    def _translate_column_coordinates_list(",
+         "        return self._translate_column_coordinates_list(convert_coordinates(coord_str))\n\n    def _translate_column_coordinates_list(", "R19j"),
     Seed("get_named_ranges lists the document-wide named expressions only", "fault", "src/odfdo/element.py",
          '        named_ranges = self.get_elements(\n            "descendant::table:named-expressions/table:named-range"\n        )\n        return named_ranges',
          '        named_ranges = self.get_elements(\n            "table:named-expressions/table:named-range"\n        )\n        return named_ranges', "R19i"),
